@@ -1355,7 +1355,7 @@ struct ssl
     psBool_t tls13ClientEarlyDataEnabled;
     psBool_t tls13ServerEarlyDataEnabled;
     psSize_t tls13SessionMaxEarlyData;
-    psSize_t tls13ReceivedEarlyDataLen;
+    uint32_t tls13ReceivedEarlyDataLen; /* 32 bits: a 16-bit sum of record sizes wraps */
     uint32_t tls13EarlyDataStatus;
     psSizeL_t tls13PadLen;
     psSizeL_t tls13BlockSize;
